@@ -77,6 +77,16 @@ func c14Gen(g *Gen) {
 					cont(inst, b, "$cb", "$ka", 0, "-") // b's own cursor, a's call token
 				}
 				cont(Pick(r, []string{"i0", "i1"}), b, "$ca", "$ka", 1, "-")
+				// protocol metadata on the continuation batch (vgi_rpc.method naming the minting method, the
+				// route's, or garbage; request version/id, protocol version, server id, shm keys, a location on a
+				// non-empty batch): none of it may let a foreign cursor through, or break an own one
+				for _, mm := range []string{a, b, "nosuch", ""} {
+					inst := Pick(r, []string{"i0", "i1"})
+					lines = append(lines,
+						fmt.Sprintf("cont %s %s %s cur=$ca call=$ka cancel=0 sess=- out=- mm=%s extra=%d extra_loc=%d", inst, id, b, mm, r.Intn(2), r.Intn(2)),
+						fmt.Sprintf("cont %s %s %s cur=$cb call=$kb cancel=0 sess=- out=- mm=%s extra=%d", inst, id, b, mm, r.Intn(2)))
+				}
+				lines = append(lines, fmt.Sprintf("cont i1 %s %s cur=$ca call=$kb cancel=%d sess=- out=- mm=%s extra=1", id, b, r.Intn(2), a))
 				// a later cursor of a's stream
 				cont(Pick(r, []string{"i0", "i1"}), a, "$ca", "$ka", 0, "ca2")
 				cont("i0", b, "$ca2", "$ka", 0, "-")
